@@ -55,6 +55,7 @@ def calls_for(edges, rng, factory):
         for form in (['tid', x], ['str', x], ['ident', x], ['utid', x]):
             for q in 'PCAD':
                 calls.append(['query', q, form, rng.random() < 0.5])
+                calls.append(['query1', q, form, True])       # only the first item is asked for: still no answer
             calls.append(['leaf', form])
         for q in 'PCAD':
             calls.append(['pred', q, ['tid', known], ['tid', x]])     # unknown object -> ValueError
